@@ -12,9 +12,9 @@ from .. import mon
 from ..worker import guard, CaseTimeout, jsonable
 
 PROPERTY = "C13"
-RULE = ("strings from 7 sources — valid generated queries (filters, functions, hostile names), single/double token- and character-level edits "
+RULE = ("strings from 8 sources — valid generated queries (filters, functions, hostile names), single/double token- and character-level edits "
         "of those, every prefix (truncation at each offset), token soup over a 60-token alphabet, random Unicode garbage up to 1024 chars, "
-        "nesting up to 32 of parentheses/filters/function calls, numeric extremes — compiled with the default environment; every query "
+        "nesting up to 32 of parentheses/filters/function calls, pumped strings (a short piece repeated up to the 1024-character bound, randomly and as a battery of every token x 19 positions), numeric extremes — compiled with the default environment; every query "
         "that compiles is applied to roots and children of every JSON kind, empty containers and depth-100 documents. Refuted by any "
         "exception that is not a JSONPathError, by str(exc) raising, or by the worker dying. Non-trivial: the string is not a plain "
         "generated valid query (edited/truncated/soup/garbage/nesting/extreme) or was evaluated on >=1 document; distinct by string. "
@@ -27,8 +27,9 @@ STALL_S = 300
 
 TOKENS = ["$", "@", ".", "..", "[", "]", "(", ")", "?", ",", ":", "*", "!", "&&", "||", "==", "!=", "<", "<=", ">", ">=", "'a'", '"a"',
           "1", "-1", "01", "-0", "1.5", "1e400", "1e-400", "-0e-999", "9" * 40, "a", "true", "false", "null", "length(", "count(", "value(",
-          "match(", "search(", "f(", " ", "\n", "\t", "\r", "'", '"', "\\", "\\u", "\\ud83d", "é", "\U0001F600", "\x00", "\x7f", "_", "-", "=", "&", "|", "~", "#", "{", "}", "0", "e", "E", "+", "/"]
-GARBAGE = list("$@.[]()?,:*!&|=<>'\"\\ \n\t\r-+eE0123456789abcfnrtu_{}#~/") + ["é", "\U0001F600", " ", "\x00", "\x1f", "￿", "퟿", "\U0010ffff", "ÿ"]
+          "match(", "search(", "f(", " ", "\n", "\t", "\r", "'", '"', "\\", "\\u", "\\ud83d", "é", "\U0001F600", "\x00", "\x7f", "_", "-", "=", "&", "|", "~", "#", "{", "}", "0", "e", "E", "+", "/",
+          "\u00b2", "\u2460", "\u0663", "\uff11", "1\u00b2", "-\u0661", "\u00bd", "\u0e51", "\U0001d7d9"]
+GARBAGE = list("$@.[]()?,:*!&|=<>'\"\\ \n\t\r-+eE0123456789abcfnrtu_{}#~/") + ["é", "\U0001F600", " ", "\x00", "\x1f", "\u00b2", "\u2460", "\u0663", "\uff11", "￿", "퟿", "\U0010ffff", "ÿ"]
 
 ROOTS = [None, True, False, 0, 1, -1, 1.5, "", "abc", [], {}, [None], [0, "a", [], {}], {"a": 1}, {"a": {"b": [1, 2, {"c": None}]}, "b": "x"},
          [[1, 2], [3], []], {"a": [], "b": {}, "c": ""}, [10**400, -10**400, 1, 1.5, "a"], {"a": 10**400, "b": -(10**310)}, 10**400, [{"a": 1, "b": 2}, {"a": "1"}, {"a": [1]}, {"a": None}, "a", 1, None, True, [], {}]]
@@ -138,7 +139,19 @@ def gen_string(R, gen, valid_pool):
     if r < 0.85:
         n = R.choice([1, 3, 10, 50, 200, 1024])
         return "garbage", "".join(R.choice(GARBAGE) for _ in range(n))[:1024]
-    if r < 0.93:
+    if r < 0.88:
+        # pumped: a short piece of a (valid or edited) query repeated until the string is long (flat repetition, not nesting)
+        t = R.choice(valid_pool)
+        if R.random() < 0.3:
+            t = edit(R, t)
+        if not t:
+            t = "$"
+        i = R.randrange(len(t))
+        piece = t[i:i + R.choice([1, 1, 2, 3, 4])] if R.random() < 0.7 else R.choice(TOKENS)
+        room = max(0, 1024 - len(t)) // max(1, len(piece))
+        k = min(room, R.choice([33, 100, 300, 1024]))
+        return "pumped", t[:i] + piece * k + t[i:]
+    if r < 0.94:
         d = R.randint(1, 32)
         k = R.choice(["paren", "filter", "call", "not-paren", "mixed"])
         inner = R.choice(["@", "@.a", "@.a==1", "1", "", "$", "@.a && @.b", "length(@)==1"])
@@ -297,6 +310,47 @@ def run_shard(spec, rec):
                 if bad:
                     rec.violation("compile:" + bad, {"query": text, "source": "literal-battery", "observed": mon.describe_outcome(o)})
     rec.feat("literal-battery")
+    # repetition battery: every token repeated up to the length bound in every kind of position (long flat strings: the
+    # lexer, the parser and the evaluator must not recurse once per repetition)
+    pieces = TOKENS + ["!@", ".a", "[0]", ",0", "&&@", "||@", "==1", ".*", "..a", "[*]", ",*", ":", "::", "[?@]", "@.a,", "1,", "'a',", " @ ", "- ", "! ", "$.a ", "@<1&&"]
+    templates = ["$[?%s@]", "$[?%s@.a==1]", "$[?@%s]", "$%s", "$[%s]", "$[?@==%s1]", "$[?%s]", "$[?@.a%s==1]", "$[?count(@%s)>1]", "$[?f(%s)]", "$[?@&&%s@]", "$[0%s]",
+                 "$.a[?@[?%s@]]", "$[?length(%s)==1]", "$[?$%s]", "%s", "$[?match(@%s,'a')]", "$['%s']", "$[?@=='%s']"]
+    shard_no = int(str(spec.get("seed", "0/0")).split("/")[-1]) if str(spec.get("seed", "")).split("/")[-1].isdigit() else 0
+    n_pumped = 0
+    for pi, piece in enumerate(pieces):
+        if pi % 4 != shard_no % 4:
+            continue
+        for tmpl in templates:
+            room = (1024 - len(tmpl) + 2) // len(piece)
+            for k in sorted({33, 120, room}):
+                if k > room:
+                    continue
+                text = tmpl.replace("%s", piece * k)
+                if len(text) > 1024 or nesting(text) > 32 or any(0xD800 <= ord(c) <= 0xDFFF for c in text):
+                    continue
+                rec.wal({"compile": text[:100] + "..."})
+                try:
+                    with guard(30):
+                        o = mon.observe(jp.compile, text)
+                        rec.monitor("M-compile")
+                        rec.case(text, True)
+                        n_pumped += 1
+                        bad = outcome_bad(o)
+                        if bad:
+                            rec.violation("compile:" + bad, {"query": text, "source": "repetition-battery", "piece": piece, "repetitions": k, "template": tmpl,
+                                                             "observed": mon.describe_outcome(o)})
+                        elif o[0] == "ok":
+                            rec.feat("repetition-battery:compiles")
+                            for d in (ROOTS[12], ROOTS[14], ROOTS[-1]):
+                                o2 = mon.observe(lambda: list(o[1].finditer(d)))
+                                rec.monitor("M-find")
+                                bad = outcome_bad(o2)
+                                if bad:
+                                    rec.violation("find:" + bad, {"query": text, "source": "repetition-battery", "piece": piece, "repetitions": k, "document": jsonable(d),
+                                                                  "observed": mon.describe_outcome(o2)})
+                except CaseTimeout:
+                    rec.timeout(text[:200])
+    rec.feat("repetition-battery", n_pumped)
     stmts = raise_statements(pkg)
     hit = {k.split(" ")[0] for k in sites.sites}
     rec.extra["raise_sites"] = sites.sites
